@@ -15,7 +15,7 @@ import struct
 
 from ..leanclient import hx
 
-TRANSLATORS = ["gcm"]
+TRANSLATORS = ["gcm", "aes"]
 
 MANIFEST = {
     "text": "Proof: for each pure-Python primitive a Lean transliteration of the code (Python-int arithmetic with the code's masks, "
@@ -37,8 +37,11 @@ MANIFEST = {
     "note": "Trusted: Lean kernel (axioms propext, Classical.choice, Quot.sound), the correspondence harness, hashlib/hmac (MD5, SHA-1, SHA-2, "
             "HMAC of CPython/OpenSSL), the harness' own reference implementations (validated against the published vectors on every run), "
             "the OpenSSL CLI for 3DES-CBC. Block ciphers and hashes are PARAMETERS of the proved theorems (only output lengths and D(E b)=b are "
-            "assumed); the AES core (rijndael.py T-tables) and single DES are NOT proved: they are tied by correspondence only (random blocks and "
-            "FIPS-197 vectors against an independent FIPS-197 implementation; 3DES-CBC against OpenSSL). "
+            "assumed); for the AES core (rijndael.py) the GENERATED tables S, Si, T1..T8, U1..U4, rcon are proved to be the FIPS-197 S-box, its inverse, "
+            "the (Inv)MixColumns columns and x^i over the whole tables, but the equality of the table-driven rounds / key schedule with the "
+            "FIPS-197 Cipher for all keys is NOT proved: an executable Lean transliteration and an executable Lean FIPS-197 are both tied by "
+            "correspondence (random blocks, FIPS-197 appendix C, an independent Python FIPS-197); single DES is not modelled at all and "
+            "3DES-CBC is tied against the OpenSSL CLI. "
             "Named excluded regions (hypotheses): ChaCha20 block counter above 2^32 (code neither wraps nor raises); CTR counter field reaching "
             "all-ones (code raises OverflowError one step early: proved); GCM more than 2^32-2 blocks (128-bit increment vs inc32); "
             "PRF_SSL beyond 416 bytes (code returns zeros); HKDF L > 255*HashLen raises (proved); CCM message >= 2^24 bytes. "
@@ -618,10 +621,15 @@ def seq_canon(state, outs):
 def st_aes_block(c):
     from tlslite.utils.rijndael import Rijndael
     key, blk = B(c["key"]), B(c["block"])
+    line = "aes_model %s %s %s" % (hx(key), c["dir"], hx(blk))
+    if len(key) not in (16, 24, 32) or len(blk) != 16:
+        f = (lambda: Rijndael(bytearray(key), 16).encrypt(bytearray(blk))) if c["dir"] == "enc" else \
+            (lambda: Rijndael(bytearray(key), 16).decrypt(bytearray(blk)))
+        return run_impl(f), "raise:ValueError", line
     r = Rijndael(bytearray(key), 16)
     if c["dir"] == "enc":
-        return run_impl(lambda: r.encrypt(bytearray(blk))), canon(ref_aes_encrypt(key, blk)), None
-    return run_impl(lambda: r.decrypt(bytearray(blk))), canon(ref_aes_decrypt(key, blk)), None
+        return run_impl(lambda: r.encrypt(bytearray(blk))), canon(ref_aes_encrypt(key, blk)), line
+    return run_impl(lambda: r.decrypt(bytearray(blk))), canon(ref_aes_decrypt(key, blk)), line
 
 
 @stage("aes-cbc")
@@ -815,6 +823,12 @@ def vectors_modes(ctx, W):
     V.append(("sp800-38a-F.2.2", "aes-cbc", dict(key=k128, iv=iv, msgs=["".join(cbc_ct)], dir="dec"), "%s %s" % (cbc_ct[-1], "".join(nist_pt))))
     V.append(("sp800-38a-F.5.1", "aes-ctr", dict(key=k128, iv="", counter="f0f1f2f3f4f5f6f7f8f9fafbfcfdfeff", msgs=["".join(nist_pt)]),
               "f0f1f2f3f4f5f6f7f8f9fafbfcfdff03 " + "".join(ctr_ct)))
+    # 3DES-CBC (3-key and 2-key), recorded from OpenSSL 3.5 `enc -des-ede3-cbc -nopad`; used even when the CLI is absent
+    fox = b"The quick brown fox jump".hex()
+    V.append(("openssl-3des-3key", "3des-cbc", dict(key="0123456789abcdef23456789abcdef01456789abcdef0123", iv="0001020304050607", msgs=[fox], openssl=False),
+              "8782e8bec97fe03f 29b01b011b9ebb6f10308a42938279068782e8bec97fe03f"))
+    V.append(("openssl-3des-2key", "3des-cbc", dict(key="0123456789abcdef23456789abcdef01", iv="0001020304050607", msgs=[fox], openssl=False),
+              "1bbcb29ed950f3e5 007b2d1401557ec301cee03206ba3df31bbcb29ed950f3e5"))
     V.append(("rfc6229-128", "rc4", dict(key="0102030405060708090a0b0c0d0e0f10", msgs=["00" * 32]),
               "9ac7cc9a609d1ef7b2932899cde41b975248c4959014126a6e8a84f11d1a9e1c"))
     for label, name, case, expected in V:
@@ -842,6 +856,16 @@ def part_modes(ctx, W):
         for key, blk in ((bytes(kl), bytes(16)), (b"\xff" * kl, b"\xff" * 16), (bytes(kl), b"\x80" + bytes(15))):
             do(ctx, W, "aes-block", dict(key=key.hex(), block=blk.hex(), dir="enc"))
             do(ctx, W, "aes-block", dict(key=key.hex(), block=blk.hex(), dir="dec"))
+    for kl, bl in ((15, 16), (17, 16), (16, 15), (16, 17), (0, 16), (16, 0)):
+        do(ctx, W, "aes-block", dict(key=rb(rng, kl).hex(), block=rb(rng, bl).hex(), dir=rng.choice(["enc", "dec"])), nontrivial=False)
+    # the Lean FIPS-197 specification as a further voice on the same blocks
+    for kl in (16, 24, 32):
+        for _ in range(ctx.pick(6, 60)):
+            key, blk = rb(rng, kl), rb(rng, 16)
+            W.model("lean-spec:aes", dict(key=key.hex(), block=blk.hex(), dir="enc"), "aes_spec %s enc %s" % (hx(key), hx(blk)),
+                    canon(ref_aes_encrypt(key, blk)))
+            W.model("lean-spec:aes", dict(key=key.hex(), block=blk.hex(), dir="dec"), "aes_spec %s dec %s" % (hx(key), hx(blk)),
+                    canon(ref_aes_decrypt(key, blk)))
     # --- CBC: lengths 0..several blocks, 1..4 calls on one object
     for kl in (16, 24, 32):
         for nblk in ([0, 1, 2, 3, 5, 8] + ([4, 6, 7, 16, 33] if thorough else [])):
@@ -1191,6 +1215,47 @@ def st_calc_key(c):
     return run_impl(go), ref, line
 
 
+@stage("exporter")
+def st_exporter(c):
+    """TLSConnection.keyingMaterialExporter on a connection object carrying the negotiated values"""
+    from tlslite.tlsconnection import TLSConnection
+    from tlslite.session import Session
+    from tlslite.constants import CipherSuite
+    ver, suite, label, n = tuple(c["version"]), c["suite"], B(c["label"]), c["length"]
+    ms, cr, sr, ems = B(c["ms"]), B(c["cr"]), B(c["sr"]), B(c["ems"])
+
+    def go():
+        conn = TLSConnection(None)
+        conn.version = ver
+        conn._clientRandom = bytearray(cr)
+        conn._serverRandom = bytearray(sr)
+        conn.session = Session()
+        conn.session.masterSecret = bytearray(ms)
+        conn.session.cipherSuite = suite
+        conn.session.exporterMasterSecret = bytearray(ems)
+        return conn.keyingMaterialExporter(bytearray(label), n)
+    sha384 = suite in CipherSuite.sha384PrfSuites
+    Hs = (RecHash("md5"), RecHash("sha1"), RecHash("sha256"), RecHash("sha384"))
+    ref = None
+    if label in (b"server finished", b"client finished", b"master secret", b"key expansion") or ver < (3, 1):
+        ref = "raise:ValueError"
+    elif ver in ((3, 1), (3, 2)):
+        ref = canon(ref_prf10(Hs[0], Hs[1], ms, label, cr + sr, n))                     # RFC 5705 section 4
+    elif ver == (3, 3):
+        ref = canon(ref_p_hash(Hs[3] if sha384 else Hs[2], ms, label + cr + sr, n))
+    elif ver == (3, 4):
+        H = Hs[3] if sha384 else Hs[2]                                                    # RFC 8446 section 7.5
+        sec = ref_hkdf_expand_label(H, ems, label, H(b""), H.ds)
+        r = ref_hkdf_expand_label(H, sec, b"exporter", H(b""), n) if sec is not None else None
+        if r is None and sec is not None and n <= 0xffff:
+            ref_hkdf_expand(H, sec, ref_hkdf_label(n, b"exporter", H(b"")), 255 * H.ds)
+        ref = canon(r) if r is not None else "raise:ValueError"
+    line = "exporter %s %s %s %s %d %d %d %s %s %s %s %s %d" % (
+        Hs[0].line(), Hs[1].line(), Hs[2].line(), Hs[3].line(), ver[0], ver[1], 1 if sha384 else 0, hx(ms), hx(cr), hx(sr), hx(ems),
+        hx(label), n)
+    return run_impl(go), ref, line
+
+
 @stage("ssl3-digest")
 def st_digestssl(c):
     from tlslite.handshakehashes import HandshakeHashes
@@ -1519,6 +1584,17 @@ def part_kdf(ctx, W):
                 if drop:
                     case[drop] = None
                 do(ctx, W, "calc_key", case, nontrivial=False)
+    # --- exporters (RFC 5705, RFC 8446 7.5): every version, both PRF hashes, lengths incl. the HKDF limit
+    for ver in ((3, 0), (3, 1), (3, 2), (3, 3), (3, 4)):
+        for suite in ((SUITE_SHA256_PRF, SUITE_SHA384_PRF) if ver != (3, 4) else (0x1301, 0x1302)):
+            for label in (b"EXPORTER-test", b"EXPORTER_with a longer label", b"", b"master secret", b"client finished"):
+                for n in ((20, 0, 77) if label == b"EXPORTER-test" else (20,)):
+                    ds = 48 if suite in (SUITE_SHA384_PRF, 0x1302) else 32
+                    do(ctx, W, "exporter", dict(version=list(ver), suite=suite, label=label.hex(), length=n, ms=rb(rng, 48).hex(),
+                                                cr=rb(rng, 32).hex(), sr=rb(rng, 32).hex(), ems=rb(rng, ds).hex()))
+    for n in (255 * 32, 255 * 32 + 1):
+        do(ctx, W, "exporter", dict(version=[3, 4], suite=0x1301, label=b"EXPORTER-long".hex(), length=n, ms="", cr="", sr="", ems=rb(rng, 32).hex()),
+           vkey="c09:hkdf-expand-last-block-raises" if n == 255 * 32 else None)
     # --- SSLv3 Finished / CertificateVerify digest and MAC_SSL
     for _ in range(ctx.pick(8, 40)):
         do(ctx, W, "ssl3-digest", dict(transcript=rb(rng, rng.choice([0, 1, 64, 200, 1000])).hex(), ms=rb(rng, 48).hex(),
@@ -1877,11 +1953,16 @@ def run(ctx):
                        "the Python references in harness/props/c09.py are the standards' plain reading "
                        "(they reproduce the published vectors on every run)",
                        "ChaCha20 block counter stays below 2^32 (code neither wraps nor raises beyond; model follows the code there)"]
+    import shutil
+    ctx.extra["openssl_cli_for_3des"] = bool(shutil.which("openssl") or __import__("os").path.exists("/root/miniconda/bin/openssl"))
+    ctx.extra["not_proved"] = ["AES rounds/key schedule = FIPS-197 Cipher for all keys (tables proved, rest by correspondence)",
+                               "single DES (not modelled; 3DES-CBC against OpenSSL)"]
     W = Work(ctx)
-    part_chacha(ctx, W)
-    part_modes(ctx, W)
-    part_kdf(ctx, W)
-    part_aead(ctx, W)
+    for _rep in range(ctx.pick(1, 3)):          # thorough: three passes with fresh random keys / messages / splits
+        part_chacha(ctx, W)
+        part_modes(ctx, W)
+        part_kdf(ctx, W)
+        part_aead(ctx, W)
     W.flush()
 
 
